@@ -314,6 +314,7 @@ func (e *Enc) lookup(fr *Frame, x *ssa.Lookup) {
 		for i, lf := range ls {
 			vk := "mv:" + typeKey(x.X.Type()) + lf.path
 			arr := e.get(fr.curState, vk, arrSort(SInt, arrSort(SInt, lf.sort)))
+			e.markRefKey(vk, lf)
 			raw := Select(Select(arr, ref), kt)
 			e.assumeLoadedRange(raw, lf)
 			ts[i] = Ite(present, raw, zs[i])
@@ -342,6 +343,7 @@ func (e *Enc) mapUpdate(fr *Frame, x *ssa.MapUpdate) {
 	st := fr.curState
 	dk := "md:" + typeKey(x.Map.Type())
 	dom := e.get(st, dk, arrSort(SInt, arrSort(SInt, SBool)))
+	wasPresent := e.s.Define("mu:present", Select(Select(dom, ref), kt))
 	e.noteWrite(dk)
 	st.m[dk] = e.s.Define("st:"+dk, Store(dom, ref, Store(Select(dom, ref), kt, True)))
 	ts := e.flatten(e.val(fr, x.Value), mt.Elem())
@@ -353,7 +355,10 @@ func (e *Enc) mapUpdate(fr *Frame, x *ssa.MapUpdate) {
 	}
 	lk := "ml:" + typeKey(x.Map.Type())
 	if _, ok := e.keySorts[lk]; ok {
-		e.havocKey(st, lk, "map update")
+		// the length of this map object grows by one iff the key was absent
+		la := e.get(st, lk, arrSort(SInt, SInt))
+		e.noteWrite(lk)
+		st.m[lk] = e.s.Define("st:"+lk, Store(la, ref, Ite(wasPresent, Select(la, ref), Add(Select(la, ref), IntLit(1)))))
 	}
 }
 
@@ -367,8 +372,16 @@ func (e *Enc) mapDelete(fr *Frame, m Val, mtyp types.Type, k Val) {
 	st := fr.curState
 	dk := "md:" + typeKey(mtyp)
 	dom := e.get(st, dk, arrSort(SInt, arrSort(SInt, SBool)))
+	wasPresent := e.s.Define("md:present", Select(Select(dom, ref), kt))
 	e.noteWrite(dk)
 	st.m[dk] = e.s.Define("st:"+dk, Store(dom, ref, Store(Select(dom, ref), kt, False)))
+	lk := "ml:" + typeKey(mtyp)
+	if _, ok := e.keySorts[lk]; ok {
+		// the length shrinks by one iff the key was present
+		la := e.get(st, lk, arrSort(SInt, SInt))
+		e.noteWrite(lk)
+		st.m[lk] = e.s.Define("st:"+lk, Store(la, ref, Ite(wasPresent, Sub(Select(la, ref), IntLit(1)), Select(la, ref))))
+	}
 }
 
 // range over maps / strings: an abstract iterator; each Next yields an unconstrained element that
